@@ -67,6 +67,41 @@ type incarnation struct {
 	brokenSeen map[string]time.Time
 	listed     map[string]bool // instances from which a crunch-run --list answer has been delivered
 	listings   int
+
+	stalls    int  // root only
+	stallsOff bool // written on root while the main task is parked, read by the main task
+}
+
+// stall models a slow or paused dispatcher host: the calling goroutine of the dispatcher
+// (here the scheduler's own) stops for a drawn while in the middle of its work, and every
+// other goroutine, VM, cloud and API event goes on. At most maxStalls per dispatcher.
+const maxStalls = 3
+
+func (inc *incarnation) stall(where string) {
+	w := inc.s.w
+	if inc.stallsOff {
+		return
+	}
+	d := w.Park("stall", where, nil, func() any {
+		if inc.dead || inc.stalls >= maxStalls {
+			inc.stallsOff = true
+			return time.Duration(0)
+		}
+		if !inc.s.faultsOn || inc.s.rate["dispatcher-stall"] <= 0 {
+			return time.Duration(0)
+		}
+		d := []time.Duration{0, 20 * time.Millisecond, time.Second, 10 * time.Second}[w.Choose("stall-"+where, 4)]
+		if d > 0 {
+			inc.stalls++
+			inc.s.lastFault = time.Now().Add(d)
+			w.Fault("dispatcher-goroutine-stalled")
+			inc.s.logf("dispatcher %d: scheduler goroutine stalls for %s (%s)", inc.n, d, where)
+		}
+		return d
+	}).(time.Duration)
+	if d > 0 {
+		time.Sleep(d)
+	}
 }
 
 type entSnap struct {
@@ -371,6 +406,7 @@ func (p *poolProxy) StartContainer(it arvados.InstanceType, ctr arvados.Containe
 			ps.refused[it.Name], ps.refusedU[it.Name] = se.prio, uuid
 		}
 		w.Probe("start-refused-no-idle-worker")
+		inc.stall("after-refused-start")
 		return ok
 	}
 	ps.started[uuid] = true
